@@ -69,16 +69,39 @@ func FoldASCII(s string) string {
 	return string(b)
 }
 
-// ContainsToken: does the list contain tok (ASCII case-insensitively)?  decided=false when
-// a line is malformed.
+// ContainsToken: does the list contain tok (ASCII case-insensitively)?  Lines are judged
+// one by one ("anywhere in comma-separated lists across header lines"): a line that is a
+// well-formed 1#token list and contains tok decides the question whatever the other lines
+// look like.  decided=false when tok was found only on a line that also has empty or malformed
+// elements, or was not found while some line is malformed.
 func ContainsToken(values []string, tok string) (has, decided bool) {
-	toks, wf := TokenList(values)
-	for _, t := range toks {
-		if FoldASCII(t) == FoldASCII(tok) {
+	allWF := true
+	for _, v := range values {
+		lineWF, lineHas := true, false
+		for _, el := range strings.Split(v, ",") {
+			el = trimOWS(el)
+			if !IsToken(el) {
+				lineWF = false
+				continue
+			}
+			if FoldASCII(el) == FoldASCII(tok) {
+				lineHas = true
+			}
+		}
+		if lineWF && lineHas {
+			return true, true
+		}
+		if lineHas {
 			has = true
 		}
+		if !lineWF {
+			allWF = false
+		}
 	}
-	return has, wf
+	if has {
+		return true, false
+	}
+	return false, allWF
 }
 
 // ValidKey: base64 (standard alphabet, padded) of exactly 16 bytes.
